@@ -66,7 +66,7 @@ def flow_record_tz(*, default_tz: str = "UTC") -> Optional[ZoneInfo | UTC]:
 
     try:
         return ZoneInfo(tz)
-    except ZoneInfoNotFoundError as exc:
+    except (ZoneInfoNotFoundError, ValueError) as exc:
         if tz != "UTC":
             warnings.warn(f"{exc!r}, falling back to timezone.utc")
         return UTC
